@@ -95,6 +95,7 @@ class Stmt:
         self.partial = False
         self.error = None
         self.offset = None
+        self.indexed_by = None  # INDEXED BY <name> (False: NOT INDEXED)
 
     @property
     def is_write(self):
@@ -237,6 +238,18 @@ class Parser:
         if k is None:
             raise SqlError('expected %s at %r' % ('/'.join(ops), self.peek()))
         return k
+
+    def index_hint(self, st):
+        """<table> INDEXED BY <index> | <table> NOT INDEXED"""
+        t = self.peek()
+        if t[0] == 'id' and t[1].upper() == 'INDEXED' and self.peek(1) == ('kw', 'BY'):
+            self.next()
+            self.next()
+            st.indexed_by = self.ident()
+        elif t == ('kw', 'NOT') and self.peek(1)[0] == 'id' and str(self.peek(1)[1]).upper() == 'INDEXED':
+            self.next()
+            self.next()
+            st.indexed_by = False
 
     def ident(self):
         t = self.next()
@@ -401,6 +414,7 @@ class Parser:
         st.colnames = [colname(c) or render(c) for c in st.columns]
         if self.eat_kw('FROM'):
             st.table = self.ident()
+            self.index_hint(st)
         if self.eat_kw('WHERE'):
             st.where = self.expr()
         if self.eat_kw('ORDER'):
@@ -453,6 +467,7 @@ class Parser:
             self.next()
             st.kind = 'update'
             st.table = self.ident()
+            self.index_hint(st)
             self.expect_kw('SET')
             while True:
                 if self.peek()[0] == 'hole':
@@ -472,6 +487,7 @@ class Parser:
             st.kind = 'delete'
             self.expect_kw('FROM')
             st.table = self.ident()
+            self.index_hint(st)
             if self.eat_kw('WHERE'):
                 st.where = self.expr()
         elif t == ('kw', 'BEGIN'):
